@@ -119,6 +119,12 @@ SUBCHECKS = [
              rule=RULE),
     SubCheck("single_edits", evaluate_edits, strategy=edit_cases, examples=(800, 10000), shards=(16, 16),
              floors={"neighbours:100+": 100}, rule=RULE),
+    SubCheck("giant_strands", evaluate_formula,
+             enum=(lambda tier: 4 if tier == "quick" else 8,
+                   lambda i, tier: {"strand": (["AC", "CA", "ACGT", "TGCA", "AG", "GA", "CT", "TC"][i] * 600000)[
+                       :1048576 + [7, 600, 1, 90001, 3, 5, 1048577, 2][i]], "n": [12, 5, 2, 9, 12, 3, 7, 11][i]}),
+             shards=(4, 8), exhaustive_space="strands of 1,048,577..2,097,153 nucleotides (beyond 2^20) with ascents at "
+                                             "even and at odd positions", rule=RULE, timeout=600.0),
 ]
 
 TECHNIQUE = ("property-based testing (Hypothesis) against an independent VT formula, plus complete enumeration of all "
